@@ -180,7 +180,7 @@ def main():
     from . import _tvcommon as T
     cg_sets = {"O0": ["-O0"], "O0-collapse": ["-O0", "-fcollapse-transition-ranges"], "O2": ["-O2"], "O2-collapse1": ["-O2", "--collapsed-range-length", "1"]}
     cg_ps = progs.corpus(big=False, include_fail=False) + gen.regex_programs(False, common.seed())[:: 40] + gen.generated_programs(40 if thorough else 12, common.seed())
-    T.run("C05", {"refine"}, "other", "", optsets=cg_sets, programs=cg_ps, rep=rep)
+    T.run("C05", {"refine", "consume"}, "other", "", optsets=cg_sets, programs=cg_ps, rep=rep)
     rep.coverage["codegen_option_sets"] = cg_sets
     rep.coverage["variants"] = variants
     rep.coverage["programs_in_set"] = len(ps)
